@@ -49,6 +49,8 @@ def module_consts(tree):
 
 
 PURE_CALLS = {"len", "str", "int", "repr", "min", "max", "abs", "round", "hex", "bool", "sorted", "list", "tuple"}
+PURE_METHODS = {"get", "hex", "decode", "encode", "lower", "upper", "strip", "format", "join", "keys", "values", "items",
+                "startswith", "endswith", "count", "bit_length"}       # of dict / bytes / str / int values
 
 
 def _pure_expr(e):
@@ -56,7 +58,8 @@ def _pure_expr(e):
     builtins (it can only raise on ill-typed values, which the modelled alphabets do not contain)"""
     for n in ast.walk(e):
         if isinstance(n, ast.Call):
-            if not (isinstance(n.func, ast.Name) and n.func.id in PURE_CALLS):
+            if not ((isinstance(n.func, ast.Name) and n.func.id in PURE_CALLS) or
+                    (isinstance(n.func, ast.Attribute) and n.func.attr in PURE_METHODS)):
                 return False
         elif isinstance(n, (ast.Await, ast.Yield, ast.YieldFrom, ast.NamedExpr, ast.Lambda)):
             return False
